@@ -44,6 +44,13 @@ class PyTuple:
     def __repr__(self): return f"PyTuple({self.items})"
 
 
+class Unknown:
+    """A value the encoding does not track (lenient contracts only).  Always a havoc: using it yields fresh,
+    unconstrained SMT values, so obligations depending on it cannot be discharged by accident."""
+    def __init__(self, why=""): self.why = why
+    def __repr__(self): return f"Unknown({self.why})"
+
+
 class BoundMethod:
     def __init__(self, recv, name): self.recv, self.name = recv, name
 
